@@ -1,6 +1,8 @@
 // C17 — mtbl_crc32c is the standard CRC-32C on every buffer, both implementations
 #define VF_MAIN
 #include "../harness/refcodec.h"
+#include <sys/wait.h>
+#include <unistd.h>
 using namespace vf;
 
 extern "C" {
@@ -26,15 +28,49 @@ static void early_fill() {
     g_early_buf[i] = (uint8_t)(x >> 24);
   }
 }
-__attribute__((constructor(101))) static void early_probe() {
-  early_fill();
-  g_early_sse = my_crc32c_sse42_supported();
+static int g_early_died = 0;  // wait status of the probing child when it did not deliver (sanitizer report, signal)
+static void early_compute() {
   for (int i = 0; i < N_EARLY; i++) {
     const uint8_t *p = g_early_buf + (i % 8);
     g_early_res[i][0] = mtbl_crc32c(p, EARLY_LENS[i]);
     g_early_res[i][1] = my_crc32c_slicing(p, EARLY_LENS[i]);
     g_early_res[i][2] = g_early_sse ? my_crc32c_sse42(p, EARLY_LENS[i]) : 0;
   }
+}
+// The probing itself runs in a forked child (still before the library's initialisers: the child inherits the parent's state
+// at this point), so that a sanitizer report or a crash inside a probe becomes a recorded failure instead of killing the
+// worker before main().
+__attribute__((constructor(101))) static void early_probe() {
+  early_fill();
+  g_early_sse = my_crc32c_sse42_supported();
+  int pfd[2];
+  if (pipe(pfd) != 0) {
+    early_compute();
+    return;
+  }
+  pid_t pid = fork();
+  if (pid == 0) {
+    close(pfd[0]);
+    early_compute();
+    size_t off = 0;
+    while (off < sizeof g_early_res) {
+      ssize_t n = write(pfd[1], (const char *)g_early_res + off, sizeof g_early_res - off);
+      if (n <= 0) _exit(3);
+      off += (size_t)n;
+    }
+    _exit(0);
+  }
+  close(pfd[1]);
+  size_t off = 0;
+  while (pid > 0 && off < sizeof g_early_res) {
+    ssize_t n = read(pfd[0], (char *)g_early_res + off, sizeof g_early_res - off);
+    if (n <= 0) break;
+    off += (size_t)n;
+  }
+  close(pfd[0]);
+  int st = 0;
+  if (pid > 0) waitpid(pid, &st, 0);
+  if (pid < 0 || off < sizeof g_early_res) g_early_died = st ? st : -1;
 }
 
 struct Case {
@@ -102,6 +138,11 @@ static bool check_buf(const uint8_t *data, size_t n, int align, uint32_t want) {
   return true;
 }
 static bool check_early(int i) {
+  if (g_early_died) {
+    snprintf(g_err, sizeof g_err, "the process computing mtbl_crc32c / my_crc32c_slicing / my_crc32c_sse42 of %d fixed buffers (0..200000 bytes) from a static constructor died (wait status 0x%x: sanitizer report or signal; see stderr)",
+             N_EARLY, g_early_died);
+    return false;
+  }
   const uint8_t *p = g_early_buf + (i % 8);
   size_t n = EARLY_LENS[i];
   uint32_t want = ref::crc32c_bitwise(p, n);
